@@ -261,6 +261,7 @@ theorem literal_ok (T : Tables) (hT : TablesOK T) (hG : TablesGrammar T) (urlOk 
   split
   · simp only [List.cons_append, List.append_assoc, List.nil_append, NQG.literal]
     rw [stringLit_body T hT hG]
+    simp
   · split
     · next hl =>
       subst hl
@@ -327,7 +328,9 @@ theorem line_ok (T : Tables) (hT : TablesOK T) (hG : TablesGrammar T) (urlOk : L
   unfold NQG.line
   simp only [quadBody, hcs, hco, hpw, List.cons_append, List.append_assoc,
     List.nil_append] at hnode hobj ⊢
-  rw [skipWs_id cs _ (by omega), hnode]
+  rw [skipWs_id cs _ (by omega)]
+  simp only []
+  rw [hnode]
   simp only
   rw [skipWs_sp 0x3c _ (by omega)]
   simp only
@@ -364,5 +367,190 @@ theorem line_ok (T : Tables) (hT : TablesOK T) (hG : TablesGrammar T) (urlOk : L
       · simp only []
         rw [hgn]
         simp [NQG.skipWs, NQG.isWs]
+
+
+/-! ### no line break inside a statement -/
+
+def NoLF (l : List Nat) : Prop := ∀ c ∈ l, c ≠ 0x0a
+
+@[simp] theorem NoLF_nil : NoLF [] := by simp [NoLF]
+@[simp] theorem NoLF_cons (a : Nat) (l : List Nat) : NoLF (a :: l) ↔ a ≠ 0x0a ∧ NoLF l := by
+  simp [NoLF]
+@[simp] theorem NoLF_append (l m : List Nat) : NoLF (l ++ m) ↔ NoLF l ∧ NoLF m := by
+  simp only [NoLF, List.mem_append]
+  constructor
+  · intro h; exact ⟨fun c hc => h c (Or.inl hc), fun c hc => h c (Or.inr hc)⟩
+  · rintro ⟨h1, h2⟩ c (hc | hc); exact h1 c hc; exact h2 c hc
+
+theorem NoLF_flatMap {α : Type} (f : α → List Nat) (l : List α) (h : ∀ x ∈ l, NoLF (f x)) :
+    NoLF (l.flatMap f) := by
+  induction l with
+  | nil => simp
+  | cons x l ih =>
+    simp only [List.flatMap_cons, NoLF_append]
+    exact ⟨h x List.mem_cons_self, ih (fun y hy => h y (List.mem_cons_of_mem _ hy))⟩
+
+theorem hexUpper_ne_lf (d : Nat) : hexUpper d ≠ 0x0a := by
+  unfold hexUpper; split <;> omega
+
+theorem NoLF_hex4 (c : Nat) : NoLF (hex4 c) := by
+  simp [hex4, hexUpper_ne_lf]
+
+theorem NoLF_hex8 (c : Nat) : NoLF (hex8 c) := by
+  simp [hex8, hexUpper_ne_lf]
+
+theorem NoLF_writeIRI (T : Tables) (hT : TablesOK T) (a : Bool) (s : List Nat) :
+    NoLF (writeIRI T a s) := by
+  simp only [writeIRI, NoLF_cons, NoLF_append, NoLF_nil, iriBody]
+  refine ⟨by omega, NoLF_flatMap _ _ (fun c _ => ?_), by omega, trivial⟩
+  rcases escIRIRune_cases T hT a c with ⟨h, hr⟩ | h | h <;> rw [h]
+  · unfold iriRawOK at hr; simp only [NoLF_cons, NoLF_nil, and_true]; omega
+  · simp [NoLF_hex4]
+  · simp [NoLF_hex8]
+
+theorem NoLF_litBody (T : Tables) (hT : TablesOK T) (hG : TablesGrammar T) (a : Bool) (s : List Nat) :
+    NoLF (litBody T a s) := by
+  refine NoLF_flatMap _ _ (fun c _ => ?_)
+  rcases escLitRune_cases T hT hG a c with ⟨h, h1, h2, h3, h4⟩ | ⟨x, h, hx⟩ | h | h <;> rw [h]
+  · simp [h3]
+  · simp only [NoLF_cons, NoLF_nil, and_true]; omega
+  · simp [NoLF_hex4]
+  · simp [NoLF_hex8]
+
+theorem langRest_noLF (t : List Nat) : ∀ need, langRest t need = true → NoLF t := by
+  induction t with
+  | nil => intro _ _; simp
+  | cons x t ih =>
+    intro need h
+    unfold langRest at h
+    simp only [NoLF_cons]
+    split at h
+    · next hx =>
+      refine ⟨?_, ih _ h⟩
+      simp only [isAlpha, isDigit, Bool.or_eq_true, Bool.and_eq_true, decide_eq_true_eq] at hx
+      omega
+    · split at h
+      · next hd =>
+        simp only [Bool.and_eq_true] at h
+        exact ⟨by omega, ih _ h.2⟩
+      · simp at h
+
+theorem langPrim_noLF (t : List Nat) : ∀ seen, langPrim t seen = true → NoLF t := by
+  induction t with
+  | nil => intro _ _; simp
+  | cons x t ih =>
+    intro seen h
+    unfold langPrim at h
+    simp only [NoLF_cons]
+    split at h
+    · next hx =>
+      refine ⟨?_, ih _ h⟩
+      simp only [isAlpha, Bool.or_eq_true, Bool.and_eq_true, decide_eq_true_eq] at hx
+      omega
+    · split at h
+      · next hd =>
+        simp only [Bool.and_eq_true] at h
+        exact ⟨by omega, langRest_noLF _ _ h.2⟩
+      · simp at h
+
+theorem NoLF_writeLiteral (T : Tables) (hT : TablesOK T) (hG : TablesGrammar T)
+    (urlOk : List Nat → Bool) (a : Bool)
+    (lex dt : List Nat) (lang : Option (List Nat)) (h : WFLit urlOk lex dt lang) :
+    NoLF (writeLiteral T a lex dt lang) := by
+  obtain ⟨_, _, hlang⟩ := h
+  have hq : NoLF (0x22 :: (litBody T a lex ++ [0x22])) := by
+    simp only [NoLF_cons, NoLF_append, NoLF_nil]
+    exact ⟨by omega, NoLF_litBody T hT hG a lex, by omega, trivial⟩
+  unfold writeLiteral
+  simp only
+  split
+  · exact hq
+  · split
+    · cases lang with
+      | none => exact hq
+      | some t =>
+        refine (NoLF_append _ _).2 ⟨hq, ?_⟩
+        simp only [NoLF_cons]
+        exact ⟨by omega, langPrim_noLF t false hlang.2⟩
+    · refine (NoLF_append _ _).2 ⟨hq, ?_⟩
+      simp only [NoLF_cons]
+      exact ⟨by omega, by omega, NoLF_writeIRI T hT a dt⟩
+
+theorem NoLF_label (T : Tables) (hG : TablesGrammar T) (l : List Nat) (hl : labelOK T l = true) :
+    NoLF l := by
+  cases l with
+  | nil => simp
+  | cons c xs =>
+    simp only [labelOK, Bool.and_eq_true, List.all_eq_true] at hl
+    obtain ⟨⟨h1, h2⟩, _⟩ := hl
+    simp only [NoLF_cons]
+    constructor
+    · intro hc; subst hc
+      simp [hG.pnU_lf, isDigit] at h1
+    · intro x hx hc
+      subst hc
+      have := h2 _ hx
+      simp [hG.pn_lf] at this
+
+theorem NoLF_nodeW (T : Tables) (hT : TablesOK T) (hG : TablesGrammar T)
+    (a : Bool) (label : β → List Nat) (hl : LabelsOK T label) (t : Term β) :
+    NoLF (nodeW T a label t) := by
+  cases t with
+  | iri v => exact NoLF_writeIRI T hT a v
+  | bnode b =>
+    simp only [nodeW, NoLF_cons]
+    exact ⟨by omega, by omega, NoLF_label T hG _ (hl.wf b)⟩
+  | lit l d t => simp [nodeW]
+
+theorem NoLF_objW (T : Tables) (hT : TablesOK T) (hG : TablesGrammar T) (urlOk : List Nat → Bool)
+    (a : Bool) (label : β → List Nat) (hl : LabelsOK T label) (t : Term β) (ht : WFObject urlOk t) :
+    NoLF (objW T a label t) := by
+  cases t with
+  | iri v => exact NoLF_nodeW T hT hG a label hl (.iri v)
+  | bnode b => exact NoLF_nodeW T hT hG a label hl (.bnode b)
+  | lit l d tg => exact NoLF_writeLiteral T hT hG urlOk a l d tg ht
+
+theorem NoLF_quadBody (T : Tables) (hT : TablesOK T) (hG : TablesGrammar T) (urlOk : List Nat → Bool)
+    (a : Bool) (label : β → List Nat) (hl : LabelsOK T label) (quads : Bool) (q : Quad β)
+    (h : WFQuad urlOk q) : NoLF (quadBody T a label quads q) := by
+  have hg : NoLF (graphW T a label quads q.g) := by
+    unfold graphW
+    split
+    · split
+      · simp only [NoLF_cons]; exact ⟨by omega, NoLF_nodeW T hT hG a label hl _⟩
+      · simp
+    · simp
+  simp only [quadBody, NoLF_append, NoLF_cons, NoLF_nil, and_true]
+  exact ⟨NoLF_nodeW T hT hG a label hl _, by omega, NoLF_nodeW T hT hG a label hl _,
+    by omega, NoLF_objW T hT hG urlOk a label hl _ h.o, hg, by omega, by omega⟩
+
+theorem quadBody_getLast (T : Tables) (a : Bool) (label : β → List Nat) (quads : Bool) (q : Quad β) :
+    (quadBody T a label quads q).getLast? = some 0x2e := by
+  have : quadBody T a label quads q =
+      (nodeW T a label q.s ++ 0x20 :: (nodeW T a label q.p ++ 0x20 ::
+        (objW T a label q.o ++ (graphW T a label quads q.g ++ [0x20])))) ++ [0x2e] := by
+    simp [quadBody]
+  rw [this, List.getLast?_append]
+  simp
+
+/-- The output is grammatical. -/
+theorem output_grammatical (T : Tables) (hT : TablesOK T) (hG : TablesGrammar T) (urlOk : List Nat → Bool)
+    (ascii : Bool) (label : β → List Nat) (hl : LabelsOK T label) (quads : Bool) (qs : List (Quad β))
+    (hwf : ∀ q ∈ qs, WFQuad urlOk q) :
+    Spec.NQG.accepts (inRanges T.pnCharsU) (inRanges T.pnChars) quads
+      (encodeDoc T ascii label quads qs) = true := by
+  unfold NQG.accepts NQG.splitLines
+  induction qs with
+  | nil =>
+    simp [encodeDoc_nil, List.splitOn_eq_splitOnP, List.splitOnP_nil, line_nil]
+  | cons q qs ih =>
+    have hq := hwf q List.mem_cons_self
+    have hnl := NoLF_quadBody T hT hG urlOk ascii label hl quads q hq
+    rw [encodeDoc_cons_wf T ascii label urlOk quads q qs hq, List.splitOn_eq_splitOnP,
+      List.splitOnP_append_cons_of_forall_mem (by
+        intro x hx; have := hnl x hx; simpa using this) 0x0a (by simp)]
+    rw [List.all_cons, ← List.splitOn_eq_splitOnP,
+      ih (fun x hx => hwf x (List.mem_cons_of_mem _ hx))]
+    simp [quadBody_getLast, line_ok T hT hG urlOk ascii label hl quads q hq]
 
 end RdfModel.Proofs.C01
